@@ -38,11 +38,15 @@ def run(c):
         res_gen = c.tie("gen-vs-model:" + sc.sid, lines + probes, sc.impl, model, prefix=pre)
         res_otf = c.tie("otf-vs-model:" + sc.sid, lines + probes, sc.otf, model, prefix=pre)
         dup_lines = set()
+        otf_lines = set()
         suspects = []
         for (l, a, _), (_, b, _) in zip(res_gen, res_otf):
             if a != b:
-                if l in probes and a == "err eof" and b in ("CRASH", "TIMEOUT", "err eof", "panic"):
+                if a == "err eof" and b in ("CRASH", "TIMEOUT"):
+                    # generated code (and the model) reject with EOF — the element-count sanity check — while the interpreter
+                    # dies allocating: exactly the missing sanity check of the known finding
                     c.oracle_failures.append({"key": OTF_KEY, "what": "otf", "input": l})
+                    otf_lines.add(l)
                     continue
                 pa, pb = a.split(" "), b.split(" ")
                 if "dict" in cc.reach_kinds(sc, int(l.split(" ")[2])) and a.startswith("ok ") and b.startswith("ok ") and pa[1] == pb[1]:
@@ -66,7 +70,7 @@ def run(c):
                 c.oracle_fail(l, "generated code and dynamic interpreter disagree on a dictionary type: generated %s, interpreter %s" % (a[:100], b[:100]), l)
         # tie failures of the interpreter on the probes are explained by the known finding
         for t in c.tie_failures:
-            if (t["line"] in probes or t["line"] in dup_lines) and t["tie"].startswith("otf-vs-model"):
+            if (t["line"] in otf_lines or t["line"] in dup_lines) and t["tie"].startswith("otf-vs-model"):
                 t["explained"] = True
     c.extra["rule"] = "same TL1 case lines served by generated code, by onthefly.CreateValue(instance) and by the Lean model; three-way comparison"
     c.extra["explanation"] = "three-way differential run"
